@@ -427,9 +427,9 @@ def condition_strategy(safe):
         tk = st.just(0) if safe else st.sampled_from([0, 0, 1, 2, 3])
         return st.fixed_dictionaries({
             "consumers": st.lists(tk, min_size=1, max_size=4),
-            "producers": st.lists(st.fixed_dictionaries({"start": tk, "items": st.integers(1, 3), "n": st.integers(0, 3),
+            "producers": st.lists(st.fixed_dictionaries({"start": tk, "items": st.integers(1, 3), "n": st.sampled_from([0, 1, 1, 2, 3]),
                                                          "hold": tk}), min_size=1, max_size=3),
-            "producers_first": st.booleans(),
+            "producers_first": st.sampled_from([False, False, True]),
         })
     return s
 
@@ -952,7 +952,7 @@ OBLIGATIONS = _lock_obls() + [
     Obligation("condition", condition_strategy(False), condition_execute("condition", False), {"quick": 250, "thorough": 10000},
                "1-4 consumers (acquire mutex; while no item: cond.wait(); take item; release) and 1-3 producers (acquire; add 1-3 "
                "items; hold; notify(n)|notify_all; release) plus a final notify_all; non-trivial = a consumer returned from wait()"),
-    Obligation("condition-safe", condition_strategy(True), condition_execute("condition-safe", True), {"quick": 300, "thorough": 10000},
+    Obligation("condition-safe", condition_strategy(True), condition_execute("condition-safe", True), {"quick": 800, "thorough": 20000},
                "condition workload with every start offset and hold equal to zero (the known spin cannot occur)"),
     Obligation("pool", pool_strategy(False), pool_execute("pool", False), {"quick": 700, "thorough": 30000},
                "ConnectionPool min 0-2 / max 1-3, set-up latencies 0-6 ticks, time-outs 10/20/40/500 ticks, optional warm-up, 2-5 "
